@@ -346,7 +346,8 @@ pub const H_FLUSH_ONLY: usize = 1_000_002; // flush; drop
 pub const H_NO_FLUSH: usize = 1_000_003; // write_all(300); drop
 pub const H_SHORT_LONG_SHORT: usize = 1_000_004; // write(6); write_all(3000); write_all(7); drop
 pub const H_MANY_SMALL: usize = 1_000_005; // 40 x write_all(17); flush; write_all(1); drop
-pub const C17_HISTORIES: [usize; 7] = [0, 300, H_DROP_ONLY, H_FLUSH_ONLY, H_NO_FLUSH, H_SHORT_LONG_SHORT, H_MANY_SMALL];
+pub const H_VECTORED: usize = 1_000_006; // write_vectored(20 bytes in 3 slices) x 2; flush; write_vectored(5); drop
+pub const C17_HISTORIES: [usize; 8] = [0, 300, H_DROP_ONLY, H_FLUSH_ONLY, H_NO_FLUSH, H_SHORT_LONG_SHORT, H_MANY_SMALL, H_VECTORED];
 
 pub fn c17_case(ae: &Option<String>, level: u32, chunk: usize, method: &str, as_parts: bool, payload_len: usize, out: &mut Vec<Finding>) -> Option<String> {
     c17_case_calls(ae, level, chunk, method, as_parts, payload_len, &[], out)
@@ -432,6 +433,13 @@ pub fn c17_case_calls(ae: &Option<String>, level: u32, chunk: usize, method: &st
                 x.write_op(7, true);
                 x.accepted.len()
             }
+            H_VECTORED => {
+                x.write_op_kind(20, 2);
+                x.write_op_kind(20, 2);
+                x.flush_op();
+                x.write_op_kind(5, 2);
+                x.accepted.len()
+            }
             H_MANY_SMALL => {
                 for _ in 0..40 {
                     x.write_op(17, true);
@@ -481,7 +489,7 @@ pub fn run_c17(run: &mut Run) -> Stats {
     let tier = run.tier;
     let values = c17_values(tier);
     let prop = run.prop.clone();
-    run.rule = "Accept-Encoding values {absent, empty, every C16 list of <= 2 elements, 20 hand-picked 3-element / malformed values} x gzip level 0..9 x chunk size {1, 7, 4096} x methods {GET, HEAD, POST} x request given as http::Request and as http::request::Parts x writer histories {write_all(n); flush; drop for n in {0, 300}; drop only; flush, drop; write_all(300), drop; write(6), write_all(3000), write_all(7), drop; 40 x write_all(17), flush, write_all(1), drop} (the last five at levels 0, 1, 6, 9). Oracle: Vary names accept-encoding; Content-Encoding: gzip iff (independent evaluator prefers gzip) and level > 0, never another coding; body sniffed by the independent decoder: says gzip <=> exactly one gzip member of the payload, otherwise the payload verbatim; both request representations give identical headers; HEAD: same headers, no writer, empty body; earlier builder calls that are overridden, and the two final builder calls in either order, must not matter. non-trivial = distinct (Accept-Encoding, level, chunk, method, representation, payload)".into();
+    run.rule = "Accept-Encoding values {absent, empty, every C16 list of <= 2 elements, 20 hand-picked 3-element / malformed values} x gzip level 0..9 x chunk size {1, 7, 4096} x methods {GET, HEAD, POST} x request given as http::Request and as http::request::Parts x writer histories {write_all(n); flush; drop for n in {0, 300}; drop only; flush, drop; write_all(300), drop; write(6), write_all(3000), write_all(7), drop; 40 x write_all(17), flush, write_all(1), drop; write_vectored(20 bytes in three slices) twice, flush, write_vectored(5), drop} (the last six at levels 0, 1, 6, 9). Oracle: Vary names accept-encoding; Content-Encoding: gzip iff (independent evaluator prefers gzip) and level > 0, never another coding; body sniffed by the independent decoder: says gzip <=> exactly one gzip member of the payload, otherwise the payload verbatim; both request representations give identical headers; HEAD: same headers, no writer, empty body; earlier builder calls that are overridden, and the two final builder calls in either order, must not matter. non-trivial = distinct (Accept-Encoding, level, chunk, method, representation, payload)".into();
     run.bounds = json!({"accept_encoding_values": values.len(), "levels": 10, "chunk_sizes": [1, 7, 4096], "methods": 3});
     par_for(values.len() as u64, threads(), |i, st| {
         let ae = &values[i as usize];
